@@ -665,6 +665,10 @@ def validate_usm_message(message: PlainMessage) -> None:
 
     :raises SnmpError: If an error was found
     """
+    if not isinstance(message.scoped_pdu.data, Report):
+        # The usmStats counters are ordinary MIB objects which can be
+        # fetched like any other. They only indicate an error in a Report.
+        return
     try:
         pdu = message.scoped_pdu.data.value
     except ErrorResponse as exc:
